@@ -5,6 +5,7 @@ import someip.config as C
 import someip.header as H
 import someip.sd as SD
 from contracts import looplib as LL
+from contracts.common import check_frame
 from contracts import spec_sd as SS
 
 FUNCTIONS = [
@@ -139,6 +140,10 @@ class SWorld:
             # consistent state: the servers hold exactly what is requested from them
             for eg, srv in self.requested:
                 self.servers.held.setdefault(srv, []).append(eg_key(eg))
+        self.heap = vc.snapshot(prot=self.prot)
+
+    def check_frame(self, label, allowed=()):
+        check_frame(self.vc, self.heap, label, tuple(allowed))
 
     def expect_held(self, label, requested, alive):
         vc = self.vc
@@ -165,6 +170,7 @@ def ob_subscribe_eventgroup(vc):
     vc.check_eq(len(w.servers.log), 0, "subscribe_eventgroup.message_goes_through_the_loop")
     w.expect_held("subscribe_eventgroup", w.requested + [(eg, srv)], w.alive)
     vc.check((eg, srv) in w.sub.subscribeentries, "subscribe_eventgroup.remembered_for_refresh")
+    w.check_frame("subscribe_eventgroup", ("prot.subscriber.subscribeentries",))
 
 
 def ob_stop_subscribe_eventgroup(vc):
@@ -175,6 +181,7 @@ def ob_stop_subscribe_eventgroup(vc):
     rest = [r for r in w.requested if not (r[0] is eg and r[1] is srv)]
     w.expect_held("stop_subscribe_eventgroup", rest, w.alive)
     vc.check((eg, srv) not in w.sub.subscribeentries, "stop_subscribe_eventgroup.forgotten")
+    w.check_frame("stop_subscribe_eventgroup", ("prot.subscriber.subscribeentries",))
 
 
 def ob_subscribe_then_stop_same_iteration(vc):
@@ -203,6 +210,8 @@ def ob_start_and_refresh(vc):
     vc.assume(not w.alive)
     vc.body(SD.ServiceSubscriber.start)(w.sub)
     vc.check(w.sub.alive and w.sub.task is not None and len(w.loop.tasks) == 1, "start.alive_with_one_refresh_task")
+    w.check_frame("start", ("prot.subscriber.alive", "prot.subscriber.task"))
+    w.heap = vc.snapshot(prot=w.prot)
     log = []
     vc.arm_cut(SD.ServiceSubscriber._subscribe, 0)
     o = vc.outcome(vc.drive, vc.body(SD.ServiceSubscriber._subscribe)(w.sub), log, None, True)
@@ -223,6 +232,7 @@ def ob_start_and_refresh(vc):
         vc.cover("refresh")
         vc.check(o.kind == "cut" and log == [("sleep", w.t.SUBSCRIBE_REFRESH_INTERVAL)], "refresh_task.next_round_exactly_one_interval_later")
     w.expect_held("refresh_task", w.requested, True)
+    w.check_frame("refresh_task", ())
 
 
 def ob_stop(vc):
@@ -233,6 +243,7 @@ def ob_stop(vc):
     task = w.sub.task
     vc.body(SD.ServiceSubscriber.stop)(w.sub, send)
     vc.check(not w.sub.alive and w.sub.task is None, "stop.not_alive")
+    w.check_frame("stop", ("prot.subscriber.alive", "prot.subscriber.task"))
     if w.alive:
         vc.check(task.cancel_requested, "stop.refresh_task_cancelled")
     if send or not w.alive:
